@@ -1,6 +1,6 @@
 (* Properties/C12.v — part.Tree watch channels close exactly on notification of relevant changes.
    Model: Part/Model.v (channels = numbers, Txn.watches = list, Notify returns the closed set). *)
-From SV Require Import Base.Bytes Base.OrdMap Part.Model Part.Sem Part.Refine Part.Cow Part.Watch.
+From SV Require Import Base.Bytes Base.OrdMap Part.Model Part.Sem Part.Refine Part.Cow Part.Watch Part.Stable Part.WatchHist.
 Open Scope N_scope.
 
 (* Notify closes exactly the recorded channels plus the root channel iff the txn is dirty;
@@ -110,23 +110,62 @@ Theorem C12_insert_watch_is_get_watch : forall x md key v,
 Proof. exact insert_watch_is_get_watch. Qed.
 Print Assumptions C12_insert_watch_is_get_watch.
 
+(* Two-key stability (the induction needed for changes at an arbitrary position of a history), on ANY txn tree
+   (published and private nodes mixed; F = "channel of a node private to the txn"): an Insert/Modify of k' leaves
+   the channel Get(k) returns for any key k unchanged, or records it, or it is the inherited (root) channel, or it
+   is private *)
+Theorem C12_modify_two_key_stability : forall c md fullKey v (F : N -> Prop), c_tid c <> 0 ->
+  forall n s k' k u u', privF c F n ->
+    let r := modify_node c md fullKey v s n k' in
+    getw n k u = u \/ getw (m_node r) k u' = getw n k u \/ In (getw n k u) (s_ws (m_st r)) \/ F (getw n k u).
+Proof. exact (fun c md fullKey v F H => proj1 (modify_stable c md fullKey v H F)). Qed.
+Print Assumptions C12_modify_two_key_stability.
+
+(* the same for Delete (all branches of delete/removeChild: leaf dropped, single child shifted up with its channel
+   retained, demotion, merge with the remaining child, in-place propagation below nodes owned by the txn) *)
+Theorem C12_delete_two_key_stability : forall c (F : N -> Prop), c_tid c <> 0 ->
+  forall n s k' k u, privF c F n -> tids_le (c_tid c) n -> tmono n ->
+    match del_node c s n k' with
+    | DNone => True
+    | DSome _ (Some n') s' _ => forall u',
+        getw n k u = u \/ getw n' k u' = getw n k u \/ In (getw n k u) (s_ws s') \/ F (getw n k u)
+    | DSome _ None s' _ => getw n k u = u \/ In (getw n k u) (s_ws s') \/ F (getw n k u)
+    end.
+Proof. exact (fun c F H => proj1 (delete_stable c H F)). Qed.
+Print Assumptions C12_delete_two_key_stability.
+
+(* Get(k) watch over WHOLE HISTORIES (full clause, any position in any multi-operation transaction): the channel a
+   that Get(k) returned on the committed tree t (allocated before the txn began: a < next, the txn's channel
+   allocator) is closed by Notify if k is inserted, replaced, or deleted while present, at any position of any
+   sequence of inserts / modifies / deletes / id bumps (Clone, Iterator, Prefix, LowerBound, All) of a txn begun
+   from t. `touched` counts a Delete only if it reported an old value. Covers present and absent keys, the root
+   channel, both watch modes, every promotion / demotion / merge / in-place path. *)
+Theorem C12_get_watch_closed_history : forall t next ops k,
+  tree_ids_ok t -> tr_next t <> 0 -> root_tmono (tr_root t) ->
+  snd (tree_get t k) <> 0 -> snd (tree_get t k) < next ->
+  touched k (tree_txn t next) ops ->
+  In (snd (tree_get t k)) (snd (txn_notify (fold_left wstep ops (tree_txn t next)))).
+Proof. exact get_watch_closed_history. Qed.
+Print Assumptions C12_get_watch_closed_history.
+
+(* its side conditions are inductive: ids by C11_cow_published, id monotonicity (parent id >= child id) here *)
+Theorem C12_history_keeps_id_monotonicity : forall t next ops,
+  tree_ids_ok t -> tr_next t <> 0 -> root_tmono (tr_root t) ->
+  root_tmono (tr_root (snd (txn_commit (fold_left wstep ops (tree_txn t next))))).
+Proof. exact history_keeps_tmono. Qed.
+Print Assumptions C12_history_keeps_id_monotonicity.
+
 (* Stated, not proved (checked by the exact M:C12 correspondence and the Go-side !BAD:C12 oracles):
-     chan_inv t : every channel id in t is < the allocator and node channels are pairwise distinct and
-                  distinct from the root channel.
-     (full version of C12_get_watch_closed_first_write_partial: any position in any history, and Delete)
-     Theorem C12_get_watch_closed : forall t next ops k, tree_ok t -> tree_ids_ok t -> chan_inv t next ->
-       key_changed (abs_tree t) ops k = true ->
-       In (snd (tree_get t k)) (snd (txn_notify (fold_left wstep ops (tree_txn t next)))).
-     Theorem C12_prefix_watch_closed : same with snd (tree_prefix t p) and a changed key having prefix p.
-     Theorem C12_insert_watch_closed : the channel returned by txn_modify for k is closed by the Notify of the next
-       txn (or the same txn, provided t_tid <> 0) that changes k at ANY position of its history (proved above: it is the
-       Get(k) channel of the committed tree, closed when the change is the first write of the txn).
-     Theorem C12_new_tree_fresh : no channel reachable from the committed tree is in the closed set.
-   Proved towards these: Notify closes exactly the recorded set (above); cloneNode records the old channel
-   whenever it does not mutate in place (C11_cow_inplace_only_own) and never mutates a published node in
-   place (C11_cow_published_never_mutated); dirty iff changed. Missing: the path induction showing that the
-   channel found by search_node/prefix_node on the old tree is one of the channels recorded by
-   modify_node/del_node along the same path, and the channel-freshness invariant. *)
+     Theorem C12_prefix_watch_closed_history : as C12_get_watch_closed_history with snd (tree_prefix t q) and a touched
+       key having prefix q. (Proved: the first-write versions above. Missing: the two-key stability induction for
+       prefix_node — the analogue of Part/Stable.v modify_stable/delete_stable, which are about search_node.)
+     Theorem C12_insert_watch_closed_same_txn : the channel returned by txn_modify for k is closed by the Notify of the
+       SAME txn if k is changed again later in it. (Proved: it is the Get(k) channel of the resulting tree
+       (C12_insert_watch_is_get_watch), so C12_get_watch_closed_history closes it in every LATER txn. Within the same txn the
+       channel is younger than the txn's allocator and the freshness argument of Part/Stable.v does not apply.)
+     Theorem C12_new_tree_fresh : no channel reachable from the committed tree is in the closed set (needs pairwise
+       distinctness of the channels of a tree and "channels of the tree < allocator" as invariants).
+     The hypothesis `snd (tree_get t k) < next` of C12_get_watch_closed_history is that second invariant for one handle. *)
 
 Example C12_nonvacuous :
   let t := fst (tree_new false 1) in
@@ -134,3 +173,13 @@ Example C12_nonvacuous :
   tree_ok t /\ t_dirty x = true /\ snd (txn_notify x) = [1] /\
   t_dirty (fold_left wstep [WDel [2]] (tree_txn t 2)) = false.
 Proof. vm_compute. repeat split; auto. Qed.
+
+(* the hypotheses of the history theorem are satisfiable: a three-transaction chain, the handle taken on the
+   second tree, the key changed as the fourth operation of the third transaction *)
+Example C12_history_nonvacuous :
+  let t0 := fst (tree_new false 1) in
+  let t1 := snd (txn_commit (fold_left wstep [WIns [1] 10; WIns [1;2] 11; WIns [2] 12] (tree_txn t0 2))) in
+  tree_ids_ok t1 /\ tr_next t1 <> 0 /\ root_tmono (tr_root t1) /\
+  snd (tree_get t1 [1;2]) <> 0 /\ snd (tree_get t1 [1;2]) < 20 /\
+  touched [1;2] (tree_txn t1 20) [WDel [1]; WBump; WIns [3] 1; WMod [1;2] 5 mod_fun].
+Proof. vm_compute. repeat split; auto; try discriminate; try lia; intuition discriminate. Qed.
